@@ -256,8 +256,10 @@ def run_check(pid, tier, only=None, keep=False, parallel=None):
             smt_log = open(os.path.join(scratch, "smt.log"), "w")
             smt_dir = os.path.join(scratch, "smt")
             os.makedirs(smt_dir)
+            smt_env = dict(os.environ)
+            smt_env["VERIF_KNOWN"] = ",".join(k for k, v in known.items() if v["prop"] == pid)
             smt_proc = subprocess.Popen(["python3-vt", os.path.join(VERIF, "lib", "smtcheck.py"), spec["smt"], tier, str(seed),
-                                         smt_dir, smt_out], stdout=smt_log, stderr=subprocess.STDOUT, cwd=VERIF)
+                                         smt_dir, smt_out], stdout=smt_log, stderr=subprocess.STDOUT, cwd=VERIF, env=smt_env)
         allh = discover(gen_dirs)
         sel = []
         for h in allh:
@@ -408,6 +410,17 @@ def run_check(pid, tier, only=None, keep=False, parallel=None):
                         h["fn"], " [only memory-safety/UB checks failed: triage by reading]" if only_ub else "", rpath))
             else:
                 inconclusive.append("%s: %s (log %s)" % (h["fn"], r["class"], r["log"]))
+        native_violations = []
+        for nv in (gen_info or {}).get("native_violations", []):
+            os.makedirs(os.path.join(VERIF, "replays"), exist_ok=True)
+            import hashlib
+            tag = hashlib.sha1(json.dumps(nv, sort_keys=True, default=str).encode()).hexdigest()[:10]
+            rpath = os.path.join(VERIF, "replays", "%s-native-%s.json" % (pid, tag))
+            rec = dict(nv)
+            rec.update(kind="native", property=pid, repo_digest=mirror.repo_src_digest())
+            with open(rpath, "w") as f:
+                json.dump(rec, f, indent=1, default=str)
+            native_violations.append((nv, rpath))
         smt_info = None
         if smt_proc:
             try:
@@ -422,9 +435,15 @@ def run_check(pid, tier, only=None, keep=False, parallel=None):
                 smt_info = json.load(open(smt_out))
                 for r in smt_info["results"]:
                     key = "smt:%s:/%s/%s" % (r["mode"], r["src"], r["flags"])
-                    if r["result"] in ("pass", "expensive"):
+                    if r["result"] in ("pass", "expensive") and not r.get("kf"):
                         continue
                     kf = [k for k, v in known.items() if v["prop"] == pid and v.get("what", "").find(key) >= 0]
+                    if r.get("kf") and r["kf"] in known:
+                        kf = [r["kf"]]
+                        if r["result"] == "pass":
+                            log("NOTE: known finding %s no longer reproduces (witness case %s passes)" % (r["kf"], r["case"]))
+                    if r["result"] in ("pass", "expensive"):
+                        continue
                     if r["result"] == "fail":
                         if kf:
                             known_lines.append("KNOWN-FINDING: property=%s %s" % (pid, known[kf[0]]["what"]))
@@ -445,6 +464,8 @@ def run_check(pid, tier, only=None, keep=False, parallel=None):
                 inconclusive.append("SMT exploration produced no result file (see smt.log in the scratch dir)")
         for ln in known_lines:
             log(ln)
+        for nv, rpath in native_violations:
+            log("VIOLATION property=%s replay=%s native :: %s" % (pid, rpath, nv.get("what", "")))
         for r, rpath in smt_violations:
             log("VIOLATION property=%s replay=%s smt-mode=%s pattern=/%s/%s haystack=%r start=%d :: %s" % (
                 pid, rpath, r["mode"], r["src"], r["flags"], r["cex"]["text"], r["cex"]["start"], r.get("native", "")))
@@ -455,11 +476,11 @@ def run_check(pid, tier, only=None, keep=False, parallel=None):
             log("INCONCLUSIVE:", s)
         wall = time.time() - t_start
         write_evidence(pid, tier, seed, spec, results, build_info, gen_info, wall, inconclusive,
-                       len(violations) + len(smt_violations), known_lines, smt_info)
+                       len(violations) + len(smt_violations) + len(native_violations), known_lines, smt_info)
         if keep or ((violations or inconclusive) and os.environ.get("VERIF_KEEP_ON_FAIL")):
             log("scratch kept at", scratch)
             keep = True
-        if violations or smt_violations:
+        if violations or smt_violations or native_violations:
             return 1
         if inconclusive:
             return 2
@@ -554,6 +575,9 @@ def write_evidence(pid, tier, seed, spec, results, build_info, gen_info, wall, i
 
 def do_replay(path):
     case = json.load(open(path))
+    if case.get("kind") == "native":
+        print("native finding (concrete comparison, re-derive with ./check %s): %s" % (case.get("property"), case.get("what")))
+        return 1
     if case.get("kind") == "smt":
         return subprocess.call(["python3-vt", os.path.join(VERIF, "lib", "smtcheck.py"), "--replay", path], cwd=VERIF)
     scratch = tempfile.mkdtemp(prefix="verif_replay_")
